@@ -98,3 +98,10 @@ Proof.
   - vm_compute. reflexivity.
 Qed.
 Print Assumptions C13_nonvacuous_node.
+
+(* the library's group function handlers (Model/GroupFnDefs.v, property C09) satisfy the contract gf_shift_ok for every shift c >= 0:
+   they commute with the move of the clock origin and keep the bound, so node_shift / node_shift_run hold for the node as shipped
+   (gf := gf_lib) *)
+From N2kV Require Model.GroupFnDefs Proofs.GroupFnContractsC.
+Theorem C13_gf_lib_shift_ok : forall c, 0 <= c -> gf_shift_ok c GroupFnDefs.gf_lib.  Proof. exact GroupFnContractsC.gf_lib_shift_ok. Qed.
+Print Assumptions C13_gf_lib_shift_ok.
